@@ -804,7 +804,13 @@ pub fn replay_frozen(rest: &[String]) -> anyhow::Result<()> {
             // and straight from the frozen module through the host API
             let host = frozen
                 .get_owned("x")
-                .map(|v| v.by_ref(|x| run::encode(*x, &mut Vec::new())))
+                .map(|v| {
+                    // a scratch heap: sets only offer the generic iteration protocol, which needs one
+                    Module::with_temp_heap(|scratch| {
+                        let x = v.add_to_heap(scratch.heap());
+                        run::encode_h(x, &mut Vec::new(), Some(scratch.heap()))
+                    })
+                })
                 .map_err(|e| format!("{}", e))?;
             Ok(json!({"a": {"out": a_out, "kind": a_err.0, "msg": a_err.2, "src": src_a}, "mods": mods_res, "host_x": host}))
         }));
